@@ -81,6 +81,14 @@ def dict_q(prop, n, cap=None, to=3600):
                  timeout=to, weight=4 * n)
 
 
+def dictw_q(prop, D, m=2, to=1800):
+    """index-width agreement between varintDictBuild and both decoders at a literal dictionary of D entries"""
+    return Query("dict-width-D%d-m%d" % (D, m), "array/dict_width.c", ["varintDict.c"] + T, defs={"D": D, "M": m, "PROP": prop},
+                 stubs=["mem64", "qsort"], checks="mem", unwind=2 * D + 16, unwind_fn={"varintDict*": D + 3, "qsort": D + 3, "varintTagged*": 9, "ref_tagged_len": 9, "ref_bytes": 9,
+                                                                                "binarySearch": 11, "varintExternal*": 9, "memcpy": 8 * D + 2, "realloc": 8 * D + 2, "memset": 8 * D + 2},
+                 timeout=to, weight=6, extra=["--max-field-sensitivity-array-size", str(8 * D + 100)])
+
+
 ELIAS_UW = {"floorLog2": 65, "varintBitWriterWrite": 66, "varintBitReaderRead": 66, "varintEliasGammaEncode": 65,
             "varintEliasGammaDecode": 66, "lg2": 65, "memset": 60, "varintElias*": 6}
 
@@ -192,6 +200,9 @@ def codec_queries(prop, tier):
                     qs.append(dict_q(13, n, cap=cap))
             else:
                 qs.append(dict_q(prop, n))
+        if prop == 2:   # index-width boundary: 255 / 256 / 257 dictionary entries
+            for D in ((256,) if q else (255, 256, 257)):
+                qs.append(dictw_q(2, D))
     # ---- Elias
     for code in (0, 1):
         qs.append(elias_q(prop, code, 1))
